@@ -7,7 +7,7 @@ from rules import common
 
 CLAIMED = True
 TECHNIQUE = "static analysis over type-checked MIR: derive-shape detection of deny_unknown_fields (no __ignore variant + unknown_field calls), default-value provenance, registry cross-check (Deserialize impls vs inserted kinds vs default kinds), kind-tagged section shape, loop-exit analysis of the lossy pipelines, guarded-table extraction of the extension->format->parser tables, field-to-field provenance of RawConfig::{root,loggers}, panic-site inventory of the loading cone"
-LEVEL_TEXT = """Static decision of schema/registry/pipeline clauses (agreement of the three formats with one another and with the programmatic configuration rests on serde and the format crates and is NOT claimed): (K1) the derived Deserialize of the 14 listed config structs denies unknown fields (no __ignore field variant, unknown_field reached from both field visitors); (K2) defaults: additive->true, root level->Debug, policy kind->"compound", encoder kind->"pattern", append->true in both file appender builders and only overridden when the config field is Some, console target->Stdout / tty_only->false, fixed-window base->0, on-start-up min_size->1; (K3) every impl of config::Deserialize is inserted exactly once in Deserializers::default() under its documented kind for the matching trait, the default kinds are registered, and an unregistered kind yields Err; (K4) the kind-tagged sections remove "kind" (and "filters") and pass the remainder on, a missing kind is an error for appender/filter/trigger/roller and the default for policy/encoder; (K5) appenders_lossy's loops only exit by exhaustion, push every error, and a failed filter does not drop its appender; file loading uses build_lossy and handles both error lists; create_raw_config fails on any error and uses strict build; (K6) yaml|yml->Yaml, json->Json, toml->Toml and each variant parses with its crate's from_str; (K7) RawConfig::{root,loggers} map level->level, appenders->appenders, additive->additive, map key->name; (K8) no un-discharged panic site in the loading cone (inherits the time trigger's known finding D5, since TimeTrigger::new runs at load time)."""
+LEVEL_TEXT = """Static decision of schema/registry/pipeline clauses (agreement of the three formats with one another and with the programmatic configuration rests on serde and the format crates and is NOT claimed): (K1) the derived Deserialize of the 14 listed config structs denies unknown fields (no __ignore field variant, unknown_field reached from both field visitors); (K2) defaults: additive->true, root level->Debug, policy kind->"compound", encoder kind->"pattern", append->true in both file appender builders and only overridden when the config field is Some, console target->Stdout / tty_only->false, fixed-window base->0, on-start-up min_size->1; (K3) every impl of config::Deserialize is inserted exactly once in Deserializers::default() under its documented kind for the matching trait, the default kinds are registered, and an unregistered kind yields Err; (K4) the kind-tagged sections remove "kind" (and "filters") and pass the remainder on, a missing kind is an error for appender/filter/trigger/roller and the default for policy/encoder; (K5) appenders_lossy's loops only exit by exhaustion, push every error, and a failed filter does not drop its appender; file loading uses build_lossy and handles both error lists; create_raw_config fails on any error and uses strict build; (K6) yaml|yml->Yaml, json->Json, toml->Toml and each variant parses with its crate's from_str; (K7) RawConfig::{root,loggers} map level->level, appenders->appenders, additive->additive, map key->name, each setter applied unconditionally before build (never skipped for some documents); (K8) no un-discharged panic site in the loading cone (inherits the time trigger's known finding D5, since TimeTrigger::new runs at load time)."""
 LEVEL_NOTE = "Trusted: rustc MIR/callee resolution; serde derive semantics for the generated shapes; serde_yaml/serde_json/toml; typemap. cfg-disabled formats report a FormatError and are checked as such."
 EXPLANATION = """Decided: K1 deny-unknown shapes (14 structs), K2 defaults, K3 registry, K4 kind-tagged sections, K5 lossy/strict pipelines, K6 format tables, K7 field mapping, K8 loading does not panic (D5 sites reported as known findings under C16). Undecided: cross-format equivalence and equivalence with the programmatic configuration."""
 DECIDED = ["K1", "K2", "K3", "K4", "K5", "K6", "K7", "K8"]
@@ -364,6 +364,12 @@ def run_cfg(ctx, p, cfg):
                 cs = [x for x in walk(e) if x[0] == "call" and x[1] == setter]
                 okf = bool(cs) and deep_strip(cs[0][2][1]) == ("field", ("field", ("param", 2), "1"), fld)
                 r.require(okf, "logger-%s" % fld, fn=c, detail="%s(logger.%s)" % (setter.rsplit("::", 1)[-1], fld))
+                # ... on every path: the setter is not skipped for some documents (builder defaults would apply)
+                sites = c.calls(setter)
+                builds = c.calls("config::runtime::LoggerBuilder::build")
+                unc = len(sites) == 1 and len(builds) == 1 and c.dominates(sites[0].block, builds[0].block)
+                r.require(unc, "logger-%s-always-passed" % fld, fn=c, detail="%s is applied unconditionally before build" % setter.rsplit("::", 1)[-1],
+                          fail_detail="%s(logger.%s) is skipped on some path to build(): for those documents the builder's default replaces the value written in the file" % (setter.rsplit("::", 1)[-1], fld))
         it = g.calls("core::iter::traits::iterator::Iterator::collect")
         r.require(len(it) == 1 and not any(x[0] == "call" and x[1].rsplit("::", 1)[-1] in ("filter", "skip", "take", "filter_map") for x in walk(it[0].arg(0))), "all-loggers-mapped", fn=g, detail="every map entry becomes a logger")
         h = p.fn("config::raw::RawConfig::refresh_rate")
